@@ -169,6 +169,7 @@ func c04Child(in json.RawMessage) (interface{}, error) {
 		}
 	}
 	r := rand.New(rand.NewSource(cs.Seed))
+	freshDir(cs.Dir) // (a case can be run a second time by the child runner)
 	rg := newRig(rigOpts{Dir: cs.Dir, SegVer: cs.SegVer, Loader: cs.Loader, Merge: "happy", MemMerge: cs.Seed%2 == 0, Unsafe: cs.Unsafe, Seed: cs.Seed | 1})
 	w, err := bluge.OpenWriter(rg.Cfg)
 	if err != nil {
